@@ -30,6 +30,12 @@ def build (variant : String) (nops nsts : Nat) : Blk :=
     match sts with
     | [] => b
     | (k, _) :: r => { b with sts := (k, h - 1) :: r }
+  | "state-other-height-later" =>
+    -- the harness adds a second state when there is only one
+    let sts2 := if nsts < 2 then sts ++ [(199, h)] else sts
+    match sts2.reverse with
+    | [] => b
+    | (k, _) :: r => { b with sts := ((k, h - 1) :: r).reverse, stsTree := sts2.map (·.1), mStsRoot := some (sts2.map (·.1)) }
   | "ops-foreign-tree" => { b with opsTree := range1 300 nops, mOpsRoot := some (range1 300 nops) }
   | "ops-root-mismatch" => { b with mOpsRoot := some [999] }
   | "op-extra" => { b with ops := ops ++ [50] }
